@@ -177,7 +177,7 @@ def sp_call(args):
     G = "(mk_sgraph %s %s %s)" % (cN(n), cN(n + 1), cL(["(%s, %s)" % (cN(num[v]), cL([cN(num[w]) for w in st.successors(v)])) for v in st.nodes()]))
     e = "None" if ext is None else "(Some %s)" % cL([cL([cN(v) for v in p]) for p in ext])
     return ("(let r := fn %d %s %s %s (%d)%%Z %s in [enc_result (fun _ => []) (match fst r with Ret _ => RetNone | Exc e => Exc e | RetNone => Ret tt end)] ++ "
-            "(match fst r with Ret o => enc_paths o | _ => [] end) ++ [[Z.of_nat (length (snd r))]])"
+            "(match fst r with Ret o => enc_paths (Some o) | _ => [] end) ++ [[Z.of_nat (length (snd r))]])"
             % (n + 3, e, d if mode != "solver" else "[]", G, k, d if mode == "solver" else "[]"))
 
 
